@@ -1007,6 +1007,17 @@ func (g *FnGen) prelude() string {
 	fmt.Fprintf(&b, "(declare-datatypes ((Slice 0)) (((mk-slice (s-ref Int) (s-off %s) (s-len %s) (s-cap %s)))))\n", idx, idx, idx)
 	b.WriteString("(declare-sort Str 0)\n(declare-sort Iface 0)\n(declare-sort F64 0)\n")
 	fmt.Fprintf(&b, "(declare-fun slen (Str) %s)\n(declare-fun sat (Str %s) %s)\n", idx, idx, g.isort(8))
+	// string slicing and concatenation as functions with content axioms
+	le, lt := g.cmp("<=", true), g.cmp("<", true)
+	z := g.ilit64(0)
+	fmt.Fprintf(&b, "(declare-fun str-sub (Str %s %s) Str)\n(declare-fun str-cat (Str Str) Str)\n", idx, idx)
+	fmt.Fprintf(&b, "(assert (forall ((s Str) (lo %s) (hi %s)) (! (=> (and (%s %s lo) (%s lo hi) (%s hi (slen s))) (= (slen (str-sub s lo hi)) %s)) :pattern ((str-sub s lo hi)))))\n",
+		idx, idx, le, z, le, le, g.sub("hi", "lo"))
+	fmt.Fprintf(&b, "(assert (forall ((s Str) (lo %s) (hi %s) (k %s)) (! (=> (and (%s %s lo) (%s lo hi) (%s hi (slen s)) (%s %s k) (%s k %s)) (= (sat (str-sub s lo hi) k) (sat s %s))) :pattern ((sat (str-sub s lo hi) k)))))\n",
+		idx, idx, idx, le, z, le, le, le, z, lt, g.sub("hi", "lo"), g.add("lo", "k"))
+	fmt.Fprintf(&b, "(assert (forall ((a Str) (b Str)) (! (= (slen (str-cat a b)) %s) :pattern ((str-cat a b)))))\n", g.add("(slen a)", "(slen b)"))
+	fmt.Fprintf(&b, "(assert (forall ((a Str) (b Str) (k %s)) (! (=> (and (%s %s k) (%s k %s)) (= (sat (str-cat a b) k) (ite (%s k (slen a)) (sat a k) (sat b %s)))) :pattern ((sat (str-cat a b) k)))))\n",
+		idx, le, z, lt, g.add("(slen a)", "(slen b)"), lt, g.sub("k", "(slen a)"))
 	b.WriteString("(declare-const nil_iface Iface)\n(declare-fun tagof (Iface) Int)\n(assert (= (tagof nil_iface) 0))\n")
 	b.WriteString("(declare-const f64zero F64)\n")
 	fmt.Fprintf(&b, "(assert (forall ((s Str)) (! (and (%s %s (slen s)) (%s (slen s) %s)) :pattern ((slen s)))))\n",
